@@ -165,11 +165,19 @@ func (r *Remote) receive(ctx context.Context, ID json.RawMessage) (*Message, err
 }
 
 // Call handles sending an RPC and receiving the corresponding response synchronously.
-func (r *Remote) Call(ctx context.Context, result interface{}, method string, params ...interface{}) error {
+// requester returns the Client, providing the default one if the Remote was
+// built without (the first calls may arrive concurrently).
+func (r *Remote) requester() Requester {
+	r.mu.Lock()
+	defer r.mu.Unlock()
 	if r.Client == nil {
 		r.Client = &Client{}
 	}
-	req, err := r.Client.Request(method, params...)
+	return r.Client
+}
+
+func (r *Remote) Call(ctx context.Context, result interface{}, method string, params ...interface{}) error {
+	req, err := r.requester().Request(method, params...)
 	if err != nil {
 		return err
 	}
